@@ -155,9 +155,16 @@ func (t *Tree) Get(topic string) []interface{} {
 }
 
 func (t *Tree) get(topic string, node *node) []interface{} {
-	// set value on leaf
+	// return a copy of the values on leaf
 	if topic == topicEnd {
-		return node.values
+		if len(node.values) == 0 {
+			return node.values
+		}
+
+		values := make([]interface{}, len(node.values))
+		copy(values, node.values)
+
+		return values
 	}
 
 	// get segment
